@@ -382,6 +382,27 @@ func genAV1Rt(x *Ctx) {
 			av1RtCase(c, mtu, os)
 		})
 	}
+	// many small OBUs (W = 0 continuation, layer changes and dropped OBUs inside long packets)
+	for i, n := 0, x.N(1500, 60000); i < n; i++ {
+		x.Case(func(c *Case) {
+			mtu := c.R.Pick(c.R.Range(6, 16), c.R.Range(16, 64), 200, 1200)
+			k := c.R.Range(9, 40)
+			os := make([]av1Obu, k)
+			palette := [][3]byte{{0, 0, 0}, {byte(c.R.Intn(8)), byte(c.R.Intn(4)), 0}}
+			for j := range os {
+				o := &os[j]
+				o.typ = byte(c.R.Pick(6, 6, 6, 3, 4, 5, 15, 8, 2, 1))
+				if c.R.Chance(1, 3) {
+					e := palette[c.R.Pick(0, 0, 0, 1)]
+					o.ext = &e
+				}
+				o.hasSize = j < k-1 || c.R.Bool()
+				o.payload = c.R.Bytes(c.R.Intn(7))
+			}
+			c.Tag("many-small")
+			av1RtCase(c, mtu, os)
+		})
+	}
 	// big MTUs and several-MTU sizes
 	for i, n := 0, x.N(60, 3000); i < n; i++ {
 		x.Case(func(c *Case) {
